@@ -1,9 +1,33 @@
 (** Property C19 -- RIS returns to the power-on state.
     Only pinned statements, closed by [exact], with their assumptions printed. *)
-From Avt Require Import Oracles.Step Proofs.TermEasy.
+From Avt Require Import Oracles.Step Proofs.Inv Proofs.TermEasy Proofs.ParserInv Proofs.StepC19.
 
 (** The regenerated [Terminal::hard_reset] assignment list, applied to any terminal, yields syntactically the terminal built by the regenerated [Terminal::new] for the same size and scrollback limit (every field, including the cursor-key mode). *)
 Theorem C19_terminal : forall t, xtw t = false -> hard_reset_gen t = term_new_gen (cols t) (rows t) (sb_limit t).
 Proof. exact hard_reset_is_new. Qed.
 Check C19_terminal : forall t, xtw t = false -> hard_reset_gen t = term_new_gen (cols t) (rows t) (sb_limit t).
 Print Assumptions C19_terminal.
+
+(** ESC c fed to ANY state satisfying the invariant (any modes, alternate screen, parser inside any sequence or string) yields syntactically the state of a freshly built Vt: parser, terminal, both buffers, dirty flags. *)
+Theorem C19_ris : forall v v1 v2, Inv v -> vt_feed v 27 = Ok v1 -> vt_feed v1 99 = Ok v2 -> v2 = vt_new (cols (vterm v)) (rows (vterm v)) (sb_limit (vterm v)).
+Proof. exact ris_is_fresh. Qed.
+Check C19_ris : forall v v1 v2, Inv v -> vt_feed v 27 = Ok v1 -> vt_feed v1 99 = Ok v2 -> v2 = vt_new (cols (vterm v)) (rows (vterm v)) (sb_limit (vterm v)).
+Print Assumptions C19_ris.
+
+(** ... and therefore reacts to every subsequent input exactly like the fresh one. *)
+Theorem C19_future : forall v v1 v2 s, Inv v -> vt_feed v 27 = Ok v1 -> vt_feed v1 99 = Ok v2 -> feed_str v2 s = feed_str (vt_new (cols (vterm v)) (rows (vterm v)) (sb_limit (vterm v))) s.
+Proof. exact ris_then_any. Qed.
+Check C19_future : forall v v1 v2 s, Inv v -> vt_feed v 27 = Ok v1 -> vt_feed v1 99 = Ok v2 -> feed_str v2 s = feed_str (vt_new (cols (vterm v)) (rows (vterm v)) (sb_limit (vterm v))) s.
+Print Assumptions C19_future.
+
+(** from every parser state, ESC c emits RIS and leaves the initial parser *)
+Theorem C19_anywhere : forall p, PInv p -> exists p1, feedM p 27 = Ok (p1, None) /\ feedM p1 99 = Ok (init_parser, Some Ris).
+Proof. exact ris_from_anywhere. Qed.
+Check C19_anywhere : forall p, PInv p -> exists p1, feedM p 27 = Ok (p1, None) /\ feedM p1 99 = Ok (init_parser, Some Ris).
+Print Assumptions C19_anywhere.
+
+(** the executable statement evaluated on the implementation is a theorem of the model *)
+Theorem C19_statement : forall p t t', TInv t -> execute t Ris = Ok t' -> holds_C19 (mkVt p t) Ris (mkVt init_parser t') = true.
+Proof. exact C19_holds. Qed.
+Check C19_statement : forall p t t', TInv t -> execute t Ris = Ok t' -> holds_C19 (mkVt p t) Ris (mkVt init_parser t') = true.
+Print Assumptions C19_statement.
